@@ -54,7 +54,7 @@ def _not_nan64(b):
 
 
 @st.composite
-def _layout(draw, d_strategy=None, n_strategy=None, widths_pool=None):
+def _layout(draw, d_strategy=None, n_strategy=None, widths_pool=None, narrow=None):
     version = draw(st.sampled_from(['FCS2.0', 'FCS3.0', 'FCS3.1']))
     dt = draw(st.sampled_from(['I', 'I', 'I', 'F', 'D']))
     D = draw(d_strategy or st.one_of(st.integers(1, 6), st.integers(1, 6), st.integers(1, 6), st.integers(7, 12)))
@@ -67,10 +67,17 @@ def _layout(draw, d_strategy=None, n_strategy=None, widths_pool=None):
             widths = [draw(st.sampled_from(WIDTHS))] * D
         else:
             widths = [draw(st.sampled_from(WIDTHS)) for _ in range(D)]
+        # (narrow: words of one size whose ranges would all fit into words of half that size)
+        narrow = bool(narrow is not None and draw(narrow))
+        if narrow:
+            widths = [draw(st.sampled_from([w for w in WIDTHS if w >= 16 and w % 16 == 0] or WIDTHS))] * D
         ranges = []
         for w in widths:
             kind = draw(st.sampled_from(['full', 'full', 'smaller_pow2', 'non_pow2']))
-            if kind == 'full':
+            if narrow:
+                R = (1 << draw(st.integers(1, w // 2))) - draw(st.sampled_from([0, 0, 1]))
+                R = max(R, 2)
+            elif kind == 'full':
                 R = 1 << w
             elif kind == 'smaller_pow2':
                 R = 1 << draw(st.integers(1, w))
